@@ -60,6 +60,14 @@ def structure(cls, ignore_on=(), rename=None):
     return {"states": st, "events": evs, "trans": per, "state_cbs": enter_exit}
 
 
+def per_event(st):
+    """the same structure with every transition bound to several events listed once per event (a from_.any()
+    declaration under two event names is expanded once per name)"""
+    out = dict(st)
+    out["trans"] = {sid: [row[:2] + ((e,),) + row[3:] for row in rows for e in row[2]] for sid, rows in st["trans"].items()}
+    return out
+
+
 def variants(sc, rng, limit):
     vs = []
     simple_states = all(not st["enter"] and not st["exit"] for st in sc["states"]) and not sc.get("values")
@@ -185,9 +193,23 @@ def add_any(sc, rng):
         kw = {"int": False, "val": list(d["val"]), "cond": sorted([[nm, (not b) if rng.random() < 0.5 else b] for nm, b in d["cond"]], key=lambda nb: not nb[1]),
               "before": list(d["before"]), "on": list(d["on"]), "after": list(d["after"])}
     sc["any"] = {"tgt": x, "ev": e}
+    evs = [e]
+    alias = rng.random() < 0.35
+    if alias:
+        # the same from_.any() declaration under a second event name (`abort = cancel`): written explicitly, the
+        # transitions are bound to both events
+        evs.append(sc["ne"])
+        sc["ne"] += 1
+        sc["any"]["ev2"] = evs[1]
     for s in range(sc["n"]):
         if s not in sc["finals"]:
-            sc["trans"].append(dict(copy.deepcopy(kw), s=s, t=x, ev=[e]))
+            sc["trans"].append(dict(copy.deepcopy(kw), s=s, t=x, ev=list(evs)))
+    # and the history uses the event(s)
+    for op in sc["ops"]:
+        if op[0] == "send" and rng.random() < 0.3:
+            op[1] = rng.choice(evs)
+    if alias:
+        return sc
     if rng.random() < 0.4:
         # a second from_.any() part under the same event (another target, its own arguments)
         y = rng.randrange(sc["n"])
@@ -335,8 +357,11 @@ def run_impl(sc):
                 sa = structure(ns3["M"])
                 oa = run_source(sc, src)
                 nstyles += 1
-                if sa != sbase:
-                    bad.append([label, "structure differs: " + ", ".join(k for k in sbase if sbase[k] != sa[k])])
+                sb_ = sbase
+                if sc["any"].get("ev2") is not None:
+                    sa, sb_ = per_event(sa), per_event(sbase)
+                if sa != sb_:
+                    bad.append([label, "structure differs: " + ", ".join(k for k in sb_ if sb_[k] != sa[k])])
                 elif canon_obs(oa) != canon_obs(base):
                     bad.append([label, "behaviour differs"])
             except Exception as e:  # noqa: BLE001
